@@ -187,6 +187,7 @@ theorem tryAlt_no_oob {sys : Sys} (hw : WF sys) (caps : Nat) (wk : WalkFn) (alt 
               cases meth with
               | linear t off => simp only []; split <;> simp
               | nometh => simp only []; split <;> (try split) <;> (try split) <;> first | exact ih' | simp
+              | custom _ _ _ _ => simp only []; split <;> (try split) <;> (try split) <;> first | exact ih' | simp
               | pgt _ _ _ _ => simp only []; split <;> (try split) <;> (try split) <;> first | exact ih' | simp
               | lookup _ _ _ => simp only []; split <;> (try split) <;> (try split) <;> first | exact ih' | simp
               | memarr _ _ _ _ _ => simp only []; split <;> (try split) <;> (try split) <;> first | exact ih' | simp
@@ -288,6 +289,12 @@ theorem tryAlt_eq_spec (sys : Sys) (caps : Nat) (wk : WalkFn) (alt : List Nat) (
               | linear t off => simp [tryAlt, cand, h1, h2, h3, h4, den]
               | nometh =>
                 cases h5 : wk .nometh a.addr with
+                | ok s => simp [tryAlt, cand, h1, h2, h3, h4, den, h5, Except.map]
+                | error e =>
+                  by_cases h6 : e = .nometh ∨ e = .nodata <;>
+                    simp [tryAlt, cand, h1, h2, h3, h4, den, h5, Except.map, h6]
+              | custom t mk hi lo =>
+                cases h5 : wk (.custom t mk hi lo) a.addr with
                 | ok s => simp [tryAlt, cand, h1, h2, h3, h4, den, h5, Except.map]
                 | error e =>
                   by_cases h6 : e = .nometh ∨ e = .nodata <;>
